@@ -1,6 +1,7 @@
 import DepLogic.Model.Codec
 import DepLogic.Model.Tags
 import DepLogic.Model.MarkerCodec
+import DepLogic.Model.MarkerText
 /-
   Line-protocol interpreter over the executable model.
   One operation per input line (TAB separated), one answer line per operation.
@@ -124,6 +125,10 @@ def handle (fields : List String) : String :=
   | ["q.read", t] =>
       match Quote.readLiteral (dec t).toList with
       | some (v, rest) => "ok\t" ++ enc (String.ofList v) ++ "\t" ++ enc (String.ofList rest)
+      | none => "none"
+  | ["q.atom", t] =>
+      match MText.readAtom (dec t).toList with
+      | some (it, rest) => "ok\t" ++ showItem it ++ "\t" ++ enc (String.ofList rest)
       | none => "none"
   -- markers (C02, C03, C07, C10, C11, C12, C13, C14, C15)
   | ["m.expr", e] => withExpr e fun x =>
